@@ -10,7 +10,7 @@
 (* [fs_step]: a new directory or a re-keying, both at or below an input directory; all other facts   *)
 (* (what changed, that links and input directories stay) are consequences of the chain of steps.     *)
 From Tempren Require Import Base.Str Py.PathLib FS.Model FS.Lemmas FS.RealpathAgree FS.DirExt
-  Pipe.Pipeline Pipe.Confine Pipe.Confined Pipe.ConfinedMove Pipe.Safety Pipe.DryEqualsReal.
+  Pipe.Pipeline Pipe.DestParent Pipe.Confine Pipe.Confined Pipe.ConfinedMove Pipe.Safety Pipe.DryEqualsReal.
 Open Scope N_scope.
 
 (* ---------- changes at or below one of several directories ------------------------------------------ *)
@@ -522,11 +522,11 @@ Proof.
     + apply (good_changes _ Hc G). rewrite Hf. apply hd_in.
 Qed.
 
-(* what is remembered about a deferred rename: the tests were made, on a state of the run *)
+(* what is remembered about a deferred rename: the four tests were made, on a state of the run *)
 Definition bl_ok (hs : list fs) (bl : list backlog_entry) : Prop :=
   Forall (fun e => exists f dst s1, e = (pf_dir f, pf_rel f, dst) /\ In (pf_dir f) D /\ In s1 (hs ++ [s]) /\
                     contained fixed s1 f dst = Some true /\ parents_contained s1 f dst = Some true /\
-                    source_contained s1 f = Some true) bl.
+                    source_contained s1 f = Some true /\ dest_parent_contained s1 f dst = Some true) bl.
 
 Lemma bl_ok_ext l hs bl : bl_ok hs bl -> bl_ok (l ++ hs) bl.
 Proof.
@@ -573,6 +573,8 @@ Proof.
     destruct (ppath_eqb np (pf_rel f)); [apply IH; assumption|].
     rewrite Hv.
     destruct (contained fixed (w_fs w) f np) as [[|]|] eqn:Ct; try (intros H; inversion H; subst; auto; fail).
+    rewrite dest_parent_test_fixed.
+    destruct (dest_parent_contained (w_fs w) f np) as [[|]|] eqn:Dc; try (intros H; inversion H; subst; auto; fail).
     destruct (parents_contained (w_fs w) f np) as [[|]|] eqn:Pc; try (intros H; inversion H; subst; auto; fail).
     destruct (source_contained (w_fs w) f) as [[|]|] eqn:Sc; try (intros H; inversion H; subst; auto; fail).
     destruct (renamer c w cwd1 (pf_rel f) np false) as [w1 e1] eqn:Rn.
@@ -585,7 +587,7 @@ Proof.
       * intros H. apply IH in H; [|assumption|assumption|].
         { destruct H as [X [Y Z]]. split; [exact X|]. split; [exact Y | congruence]. }
         constructor; [|exact Hbl1]. exists f, np, (w_fs w). split; [reflexivity|]. split; [exact HfD|].
-        split; [|auto]. rewrite Hl, <- app_assoc. apply in_or_app. right. exact Hs1.
+        split; [|exact (conj Ct (conj Pc (conj Sc Dc)))]. rewrite Hl, <- app_assoc. apply in_or_app. right. exact Hs1.
       * intros H. inversion H; subst. auto.
     + intros H. apply IH in H; [|assumption|assumption|assumption].
       destruct H as [X [Y Z]]. split; [exact X|]. split; [exact Y | congruence].
@@ -598,7 +600,7 @@ Proof.
   induction bl as [|[[d src] dst] rest IH]; intros w cwd w' cwd' e Tw Hbl AS.
   - intros H. inversion H; subst. exact Tw.
   - cbn [second_pass]. rewrite Hv. cbn [fixed v_backlog_chdir].
-    destruct (Forall_inv Hbl) as [f [dst0 [s1 [E [HfD [Hs1 [Ct [Pc Sc]]]]]]]].
+    destruct (Forall_inv Hbl) as [f [dst0 [s1 [E [HfD [Hs1 [Ct [Pc [Sc _]]]]]]]]].
     pose proof (Forall_inv_tail Hbl) as Hrest.
     inversion E; subst d src dst0. clear E.
     destruct (chdir (w_fs w) (pf_dir f)) as [cwd1|] eqn:Hc; [|intros H; inversion H; subst; exact Tw].
